@@ -504,8 +504,11 @@ def float_cases(ctx, n_models, n_scenes, hist_len, n_hist_models, seed_offset=0,
           distinct.add((kind, 'step', types, len(rows)))
           cur = pipe.step(nxt, jp.asarray(rng.uniform(-1.5, 1.5, size=nu)))
         # ---- sub-functions on the state after the warm-up steps
-        if idx < ctx.budget(3, 10 ** 9):
-          if kind == 'spring':
+        sub = idx < ctx.budget(1, 10 ** 9)
+        if sub or what_m == 'scene':
+          if not sub:
+            pass
+          elif kind == 'spring':
             tau = rng.uniform(-2, 2, size=sysm.qd_size())
             xf = jax.jit(lambda s, t: sjoints.resolve(sysm, s, t))(cur, jp.asarray(tau))
             add(' '.join(['f.sp.resolve'] + wire.sys_tokens(sysm) + spring_state_tokens(cur) + wire.vec_tokens(tau)),
@@ -569,3 +572,195 @@ def float_cases(ctx, n_models, n_scenes, hist_len, n_hist_models, seed_offset=0,
                                   index=bad, lean=(float(got[bad]) if bad >= 0 else None),
                                   real=(float(e[bad]) if bad >= 0 else None), extra=list(w[3:])))
   return len(lines), disagreements, spec_failures, stats, distinct
+
+
+# ----------------------------------------------------------------------------- rest case (Spec)
+
+
+def stack_class(meta):
+  """structural class of a generator model for the rest clause.
+
+  'supported'  : every link is free, has one joint, or has a stack with pairwise orthogonal axes
+                 made of hinges only, slides only, or slides followed by one hinge (the layouts
+                 modelgen offers as `one_kind` / `slides_then_hinge` with `orthogonal=True`);
+  'unsupported': some stack is outside that class (non-orthogonal axes, or a slide after a hinge /
+                 several hinges with a slide);
+  additionally 'lefthanded' is set when a three-hinge stack has a left-handed axis triple and its
+  middle joint is limited (defect D7 of the positional joint limits)."""
+  cls, lefthanded = 'supported', False
+  for b in meta['bodies']:
+    js = b['joints']
+    if len(js) < 2:
+      continue
+    ax = np.array([j['axis'] for j in js])
+    orth = all(abs(float(ax[i] @ ax[k])) < 1e-9 for i in range(len(js)) for k in range(i))
+    kinds = ''.join(j['type'][0] for j in js)
+    ok_kinds = kinds in ('hh', 'hhh', 'ss', 'sss', 'sh', 'ssh')
+    if not (orth and ok_kinds):
+      cls = 'unsupported'
+    if kinds == 'hhh' and np.linalg.det(ax) < 0 and 'range' in js[1]:
+      lefthanded = True
+  return cls, lefthanded
+
+
+def rest_q(rng, sysm):
+  """|q| <= 1 inside the joint limits, unit root quaternions"""
+  q, k = [], 0
+  lim = sysm.dof.limit
+  for t in sysm.link_types:
+    if t == 'f':
+      q += list(rng.uniform(-1, 1, size=3)) + list(modelgen.rand_unit_quat(rng))
+      k += 6
+    else:
+      for _ in range(int(t)):
+        lo, hi = -1.0, 1.0
+        if lim is not None:
+          lo, hi = max(lo, float(lim[0][k])), min(hi, float(lim[1][k]))
+        # stay 1e-3 inside so that the limit branch is not within round-off
+        q.append(float(rng.uniform(lo + 1e-3 * (hi - lo), hi - 1e-3 * (hi - lo))))
+        k += 1
+  return np.array(q, dtype=np.float64)
+
+
+def rest_deviation(kind, sysm, q):
+  """one step from (q, qd = 0) with zero control: max change of x / x_i and max |xd|, |xd_i|, |qd|"""
+  import jax.numpy as jp
+  pipe = Pipe(sysm, kind)
+  st = pipe.init(jp.asarray(q), jp.zeros(sysm.qd_size()))
+  st1 = pipe.step(st, jp.zeros(sysm.act_size()))
+  dev = max(float(np.abs(A(st1.x.pos) - A(st.x.pos)).max()), float(np.abs(A(st1.x.rot) - A(st.x.rot)).max()),
+            float(np.abs(A(st1.xd.vel)).max()), float(np.abs(A(st1.xd.ang)).max()),
+            float(np.abs(A(st1.qd)).max()) if sysm.qd_size() else 0.0)
+  if kind != 'generalized':
+    dev = max(dev, float(np.abs(A(st1.x_i.pos) - A(st.x_i.pos)).max()), float(np.abs(A(st1.xd_i.vel)).max()),
+              float(np.abs(A(st1.xd_i.ang)).max()))
+  return dev if np.isfinite(dev) else float('inf')
+
+
+REST_OPTS = dict(actuators=(0, 0), stiffness=0.0, gravity=(0.0, 0.0, 0.0), limits=0.5, n_links=(1, 4))
+
+
+def rest_cases(ctx, n_supported, n_any, seed_offset=0):
+  """the rest clause on all three pipelines; returns (cases, spec_failures, stats)"""
+  _setup()
+  from brax.io import mjcf
+  rng = np.random.default_rng(ctx.seed + 977 + seed_offset)
+  fails, n_cases = [], 0
+  stats = dict(rest_models=[], rest_worst_supported=0.0, rest_outside_class_failing=0, rest_outside_class_ok=0)
+  plans = []
+  for i in range(n_supported):
+    kinds = ['one_kind', 'slides_then_hinge', 'hinge'][i % 3]
+    plans.append(dict(roots='mixed', stack=(1, 3), kinds=kinds, orthogonal=True))
+  for i in range(n_any):
+    plans.append(dict(roots='mixed', stack=(1, 3), kinds='mixed', orthogonal=False))
+  for opts in plans:
+    o = dict(REST_OPTS)
+    o.update(opts)
+    xml, meta = modelgen.gen_model(rng, **o)
+    sysm = mjcf.loads(xml)
+    q = rest_q(rng, sysm)
+    cls, lefthanded = stack_class(meta)
+    stats['rest_models'].append(f'{meta["link_types"]}:{cls}{":lh" if lefthanded else ""}')
+    for kind in ('spring', 'positional', 'generalized'):
+      dev = rest_deviation(kind, sysm, q)
+      n_cases += 1
+      if dev <= TOL_REST:
+        if cls == 'supported':
+          stats['rest_worst_supported'] = max(stats['rest_worst_supported'], dev)
+        else:
+          stats['rest_outside_class_ok'] += 1
+        continue
+      if kind == 'positional' and lefthanded:
+        key = 'rest:positional:lefthanded-3hinge-limit'
+      elif cls == 'unsupported' and kind != 'generalized':
+        key = f'rest:{kind}:unsupported-stack'
+        stats['rest_outside_class_failing'] += 1
+      else:
+        key = f'rest:{kind}:{meta["link_types"]}'
+      fails.append(dict(key=key, what=f'{kind}.pipeline.step moves a system at rest (no gravity, control, contact; '
+                        f'q inside limits): deviation {dev:.3e} after one step, link types {meta["link_types"]}, '
+                        f'stack class {cls}', pipeline=kind, xml=xml, q=q.tolist(), deviation=dev, rest=True))
+  return n_cases, fails, stats
+
+
+# ----------------------------------------------------------------------------- API
+
+
+def correspond(ctx):
+  n_lat, dis_lat, hist = lattice_cases(ctx, ctx.budget(3, 24))
+  n_flt, dis_flt, fails, stats, distinct = float_cases(
+      ctx, ctx.budget(2, 16), ctx.budget(1, 6), 200, ctx.budget(3, 22))
+  n_rest, fails_rest, rstats = rest_cases(ctx, ctx.budget(2, 12), ctx.budget(1, 6))
+  stats.update(rstats)
+  seen, uniq = set(), []
+  for f in fails + fails_rest:           # one replay per key
+    if f['key'] not in seen:
+      seen.add(f['key']); uniq.append(f)
+  return dict(
+      evaluations=n_lat + n_flt + n_rest + stats['momentum_steps'],
+      distinct_nontrivial=len(hist) + len(distinct) + len(set(stats['rest_models'])),
+      rule='exact-lattice: generator forests (1-6 links) with integer parameters/state, equality of com.from_world/'
+           'to_world, spring joints.resolve assembly with an arbitrary integer joint-frame force, positional '
+           'acceleration_update, actuator.to_tau; float (1e-9 rel.): full spring/positional pipeline.step on '
+           'free-rooted and mixed-root generator models (limits, actuators, states after real warm-up steps) and '
+           'two-body sphere/capsule collision scenes with the contacts the real step used, collision resolvers on '
+           'synthetic contact lists (1-4 rows, world and multi-body rows); Spec: momentum at every step of 200-step '
+           'histories with random controls, rest case in three pipelines; distinct = distinct (link types) shapes of '
+           'the lattice cases + distinct (pipeline, op, link types, #contacts) float cases + distinct rest models',
+      samples=[dict(lattice_link_types=sorted(hist)[:3], float_models=stats['models'][:4],
+                    momentum_worst_ratio=stats['momentum_worst'])],
+      disagreements=dis_lat + dis_flt, spec_failures=uniq,
+      trusted_base=['correspondence harness corr_C04.py (sampled inputs; exact for integer lattices, 1e-9 for float64)',
+                    'mjx.collision / contact.get: contacts enter the model as data (C10 models the geometry)',
+                    'kinematics.inverse: a parameter of the step models (C08 models it)',
+                    'scan.link_types modelled as the per-link slicing it implements (Layer B stage 1)',
+                    'jax.ops.segment_sum, take(mode=wrap) semantics as stated in DESIGN.md 3 (re-verified here by the '
+                    'exact-lattice cases)'],
+      assumptions=['IEEE round-off not modelled: theorems over an ordered field, "to round-off" is exact equality',
+                   'sys.enable_fluid = False; vel_damping = 0 enters as exp(vel_damping*dt) = 1',
+                   'momentum uses state.mass = link mass ** (1 - spring_mass_scale), the mass the pipelines integrate with'],
+      explanation='assembly functions tied exactly, whole steps to 1e-9; theorems in Props/C04.lean hold for arbitrary '
+                  'joint-frame forces / impulses, every forest and every control history',
+      extra=dict(lattice_link_types=hist, lattice_cases=n_lat, float_cases=n_flt, rest_cases=n_rest, **stats))
+
+
+def search(ctx, broken, corr):
+  """the Spec on the real code over the property's quantifier (budgeted)"""
+  _, _, fails, _, _ = float_cases(ctx, ctx.budget(5, 40), ctx.budget(2, 12), 200, 10 ** 9, seed_offset=5000,
+                                  spec_only=True)
+  _, fails_rest, _ = rest_cases(ctx, ctx.budget(4, 30), ctx.budget(0, 6), seed_offset=5000)
+  seen, uniq = set(), []
+  for f in fails + fails_rest:
+    if f['key'] not in seen:
+      seen.add(f['key']); uniq.append(f)
+  return uniq
+
+
+def _replay_case(rp):
+  _setup()
+  import jax.numpy as jp
+  from brax.io import mjcf
+  sysm = mjcf.loads(rp['xml'])
+  if rp.get('rest'):
+    dev = rest_deviation(rp['pipeline'], sysm, np.array(rp['q']))
+    return dev <= TOL_REST, f'{rp["pipeline"]}: deviation from rest after one step {dev:.3e} (tolerance {TOL_REST})'
+  pipe = Pipe(sysm, rp['pipeline'])
+  st = pipe.init(jp.asarray(rp['q']), jp.asarray(rp['qd']))
+  acts = [np.array(a, dtype=np.float64) for a in rp['acts']]
+  steps, worst, fail = momentum_history(pipe, st, acts, 'replay', rp['xml'])
+  return fail is None, (f'{rp["pipeline"]}: worst |P\' - P - M g dt| / scale over {steps} steps = {worst:.3e} '
+                        f'(tolerance {TOL_P})')
+
+
+def replay(ctx, rp):
+  if rp.get('kind') != 'failing-input':
+    return True, f'replay names broken obligations only: {rp.get("broken")}'
+  return _replay_case(rp)
+
+
+def reproduce_known(ctx, entry):
+  """re-run a listed known finding (entries carry the same fields as a replay)"""
+  if 'xml' not in entry:
+    return True
+  ok, _ = _replay_case(entry)
+  return not ok
